@@ -147,10 +147,12 @@ Proof.
   destruct (sstep t l s) as [s1|] eqn:E; [|discriminate]. eapply IH; [|exact H]. eapply sstep_sinv; eauto.
 Qed.
 
-Lemma sinit_sinv : forall pre, sinv (sinit pre).
+Lemma sinit_tables_sinv : forall pre tabs, sinv (sinit_tables pre tabs).
 Proof.
-  intro pre. constructor; simpl; try discriminate.
+  intros pre tabs. constructor; simpl; try discriminate.
 Qed.
+Lemma sinit_sinv : forall pre, sinv (sinit pre).
+Proof. intro. apply sinit_tables_sinv. Qed.
 
 (* savepoint_tracking_consistent: whatever the threads do and however their sections interleave, allocation
    tracking is never off while a savepoint is valid (so restoring one can always free this transaction's pages),
@@ -240,7 +242,20 @@ Qed.
    in order -- nothing another table's stream or a savepoint call does shows in it *)
 Theorem per_table_independent : forall pre log s tb,
   srun log (sinit pre) = Some s -> table_map s tb = spec_table tb log.
-Proof. intros. unfold spec_table. rewrite (srun_table log _ _ tb H). reflexivity. Qed.
+Proof. intros. unfold spec_table, spec_table_from. rewrite (srun_table log _ _ tb H). reflexivity. Qed.
+
+(* the same starting from tables that exist already: the committed contents, then the table's own operations *)
+Theorem per_table_independent_from : forall pre tabs log s tb,
+  srun log (sinit_tables pre tabs) = Some s ->
+  table_map s tb = spec_table_from (table_map (sinit_tables pre tabs) tb) tb log.
+Proof. intros. unfold spec_table_from. apply (srun_table log _ _ tb H). Qed.
+
+Theorem savepoint_tracking_consistent_from : forall pre tabs log s,
+  srun log (sinit_tables pre tabs) = Some s -> s_tracking s = false -> s_valid s = [] /\ s_dirty s = true.
+Proof.
+  intros pre tabs log s H Ht. pose proof (srun_sinv log _ _ (sinit_tables_sinv pre tabs) H) as J.
+  split; [apply (j_valid s J Ht)|apply (j_dirty s J Ht)].
+Qed.
 
 (* ================================================================ no page shared between tables *)
 Definition is_put (l : slabel) : option N := match l with LEnter (SPut tb _ _) => Some tb | _ => None end.
